@@ -29,14 +29,28 @@ CODECS = ["minimal", "ld", "lossless", "frag", "fields", "c420", "asym", "custom
 from sim.workloads import swap_natural_pictures  # noqa: E402
 
 
-SEAMS = {cli_mod: ["open", "os", "makedirs"], file_format: ["open"]}
+def seams():
+    """Which module globals carry the file-system seam.  ``cli.makedirs`` is
+    normally the real ``os.makedirs`` (an alias bound at import time), which can
+    only be intercepted under its name in ``cli``; if the repository implements
+    it in Python instead, that implementation is left in place and runs for
+    real on the simulated file system through its own module's ``os``."""
+    m = {cli_mod: ["open", "os"], file_format: ["open"]}
+    if cli_mod.makedirs is os.makedirs:
+        m[cli_mod] = ["open", "os", "makedirs"]
+    else:
+        mod = _sys.modules.get(getattr(cli_mod.makedirs, "__module__", None))
+        if mod is not None and mod is not cli_mod and hasattr(mod, "os"):
+            m[mod] = ["os"]
+    return m
+
 
 
 def run_cli(fs, argv):
     """cli.main in-process on the simulated FS; returns (rc, stdout, stderr)."""
     import logging
 
-    with S.installed(fs, SEAMS):
+    with S.installed(fs, seams()):
         with S.captured_stdio() as (out, err):
             _sys.argv = ["vc2-test-case-generator"] + argv
             lvl = logging.getLogger().level
@@ -116,7 +130,7 @@ def run_tasks(codes, policy, fs=None):
     lvl = logging.getLogger().level
     logging.getLogger().setLevel(logging.ERROR)
     try:
-        with S.installed(fs, SEAMS):
+        with S.installed(fs, seams()):
             with S.captured_stdio():
                 excs = baton.run([make(c) for c in codes])
     finally:
@@ -496,7 +510,11 @@ def c23_apply(fs, side_dir, index, dims, fault):
         fs.put(rawp, fs.get(rawp) + bytes(fault["n"]))
         return k
     if k in ("json_picnum", "json_vp", "json_pcm"):
-        meta = _json.loads(fs.get(jsp).decode("utf-8"))
+        try:
+            meta = _json.loads(fs.get(jsp).decode("utf-8"))
+            int(meta["picture_number"]), meta["video_parameters"][fault.get("key", "frame_width")], meta["picture_coding_mode"] + 0
+        except Exception:  # noqa: BLE001 — already damaged by an earlier fault
+            return "noop"
         if k == "json_picnum":
             meta["picture_number"] = str((int(meta["picture_number"]) + fault["delta"]) & 0xFFFFFFFF)
         elif k == "json_vp":
@@ -510,13 +528,48 @@ def c23_apply(fs, side_dir, index, dims, fault):
     if k == "json_missing":
         del fs.files[jsp]
         return k
+    if k == "json_trunc":
+        b = fs.get(jsp)
+        fs.put(jsp, b[: fault["at"] % max(1, len(b))])
+        return k
+    if k == "json_byte":
+        b = bytearray(fs.get(jsp))
+        if not b:
+            return "noop"
+        b[fault["at"] % len(b)] = fault["v"]
+        fs.put(jsp, b)
+        return k
     raise ValueError(k)
 
 
+CORRUPT = "corrupt"
+VP_KEYS = set(set_source_defaults(BaseVideoFormats.hd1080p_50).keys())
+
+
 def h_meta(fs, path):
+    """Harness-side reading of a metadata file: None if absent, CORRUPT if it
+    is not valid UTF-8 JSON with the documented fields and in-range values."""
     if path not in fs.files:
         return None
-    m = _json.loads(fs.get(path).decode("utf-8"))
+    try:
+        m = _json.loads(fs.get(path).decode("utf-8"))
+        vp = m["video_parameters"]
+        ok = (
+            set(m) == {"video_parameters", "picture_coding_mode", "picture_number"}
+            and set(vp) == VP_KEYS
+            and all(isinstance(vp[k], (int, bool)) for k in vp)
+            and isinstance(vp["top_field_first"], bool)
+            and isinstance(m["picture_coding_mode"], int) and m["picture_coding_mode"] in (0, 1)
+            and int(m["picture_number"]) >= 0 and str(m["picture_number"]).strip().isdigit()
+            and vp["color_diff_format_index"] in (0, 1, 2) and vp["source_sampling"] in (0, 1)
+            and vp["color_primaries_index"] in (0, 1, 2, 3, 4, 5) and vp["color_matrix_index"] in (0, 1, 2, 3, 4, 5) and vp["transfer_function_index"] in (0, 1, 2, 3, 4, 5, 6)
+            and all(isinstance(vp[k], int) and not isinstance(vp[k], bool) and vp[k] >= 0 for k in ("frame_width", "frame_height", "luma_excursion", "color_diff_excursion", "luma_offset", "color_diff_offset"))
+            and vp["luma_excursion"] >= 1 and vp["color_diff_excursion"] >= 1 and vp["frame_width"] >= 1 and vp["frame_height"] >= 1
+        )
+        if not ok:
+            return CORRUPT
+    except Exception:  # noqa: BLE001
+        return CORRUPT
     return m
 
 
@@ -545,7 +598,7 @@ class C23(Spec):
     }
     assumptions = [
         "reference = harness-side little-endian raw decoder (masking to the depth) and JSON comparison, independent of file_format.read",
-        "JSON faults keep the file valid JSON (what a corrupt JSON does is not stated by the property)",
+        "a metadata file that is damaged (not valid UTF-8 JSON with in-range fields, judged by a harness-side reader) can never be shown to match: exit 0 is a violation, any other status or an exception is accepted",
     ]
     rule = (
         "each run = a seeded format (1x1..24x16, 4:4:4/4:2:2/4:2:0, frames/fields, bit depths 1-64 incl. non-byte "
@@ -574,7 +627,7 @@ class C23(Spec):
         nf = 0 if r < 0.2 else 1 if r < 0.7 else rng.choice([2, 3])
         faults = []
         for _ in range(nf):
-            k = rng.choice(["sample_bit", "sample_bit", "sample_bit", "padding_bit", "padding_bit", "padding_bit", "trunc_raw", "extend_raw", "json_picnum", "json_vp", "json_pcm", "json_missing"])
+            k = rng.choice(["sample_bit", "sample_bit", "sample_bit", "padding_bit", "padding_bit", "padding_bit", "trunc_raw", "extend_raw", "json_picnum", "json_vp", "json_pcm", "json_missing", "json_trunc", "json_byte"])
             f = {"k": k, "pic": rng.randrange(npics)}
             if k in ("sample_bit", "padding_bit"):
                 f.update(comp=rng.choice(["Y", "C1", "C2"]), sample=rng.randrange(1 << 16), bit=rng.randrange(64))
@@ -582,6 +635,11 @@ class C23(Spec):
                 f["n"] = rng.choice([1, 1, 2, 8])
             elif k == "json_picnum":
                 f["delta"] = rng.choice([1, -1, 1 << 31])
+            elif k == "json_trunc":
+                f["at"] = rng.randrange(1 << 12)
+            elif k == "json_byte":
+                f["at"] = rng.randrange(1 << 12)
+                f["v"] = rng.choice([ord("9"), ord("x"), ord("}"), ord('"'), 0, 0xFF, ord(" "), ord("7"), ord("-")])
             elif k == "json_vp":
                 f["key"] = rng.choice(["frame_rate_numer", "top_field_first", "luma_offset", "clean_width", "pixel_aspect_ratio_numer"])
             faults.append(f)
@@ -643,6 +701,10 @@ class C23(Spec):
             for i in range(case["npics"]):
                 ma = h_meta(fs, "/sim/a/picture_%d.json" % i)
                 mb = h_meta(fs, "/sim/b/picture_%d.json" % i) or ma
+                if ma == CORRUPT or mb == CORRUPT:
+                    # damaged metadata can never be shown to match
+                    expect.append(("corrupt", None))
+                    continue
                 ra, rb = fs.get("/sim/a/picture_%d.raw" % i), fs.get("/sim/b/picture_%d.raw" % i)
                 da, db = h_dims_from_meta(ma), h_dims_from_meta(mb)
                 size_a = sum(w * h * b for (w, h, d, b) in raw_sizes(da).values())
@@ -678,7 +740,7 @@ class C23(Spec):
         stats["rc:%s" % (rc,)] += 1
         all_identical = all(e[0] == "identical" for e in expect)
         if exc is not None:
-            if any(e[0] == "badsize" for e in expect):
+            if any(e[0] in ("badsize", "corrupt") for e in expect):
                 # a wrong-size file: anything but "identical" is acceptable; an
                 # exception is not exit 0
                 stats["wrong-size-raised"] += 1
